@@ -53,7 +53,7 @@ def _nice(ctx, x, key, kind, idx, pol="pos"):
         ctx.nice(x, [c * (1 + 0.1 * idx) for c in NICE[key]])
 
 
-def build_system(ctx, shape, assume_nonneg=True, sysname="sys"):
+def build_system(ctx, shape, assume_nonneg=True, sysname="sys", rt="none"):
     """-> (System, info, durations) ; info[name] = dict(kind, P, parents, conf, comp)"""
     from sysloss.system import System
     from .core import Skip
@@ -64,7 +64,10 @@ def build_system(ctx, shape, assume_nonneg=True, sysname="sys"):
     durations = {}
     for idx, nd in enumerate(shape["nodes"]):
         kind, name = nd["kind"], nd["name"]
-        P = params(ctx, kind, name, nd.get("form", "const"), fixed=nd.get("fixed"), loss=nd.get("loss", False),
+        fixed = dict(nd.get("fixed") or {})
+        if kind != "Source" and not (rt == "all" or (isinstance(rt, (list, tuple)) and name in rt)):
+            fixed.setdefault("rt", 0.0)  # thermal resistance symbolic only where asked (each one forks solve() on tr > 0)
+        P = params(ctx, kind, name, nd.get("form", "const"), fixed=fixed, loss=nd.get("loss", False),
                    nmux=len(node_parents(nd)), rs_list=nd.get("rs_list", False), only=nd.get("only"))
         pol = nd.get("pol", "pos")
         for k, v in P.items():
